@@ -66,6 +66,15 @@ def fake_exec(code, data):
             state["nest"].evaluate("2")
         finally:
             state["depth"] = 0
+    if state.get("nest_import") and state["depth"] == 0:
+        # the student's program imports another file of the submission: pedal's own import hook runs it (nested)
+        state["depth"] = 1
+        try:
+            b = data.get("__builtins__")
+            imp = b["__import__"] if isinstance(b, dict) else getattr(b, "__import__")
+            imp("helper")
+        finally:
+            state["depth"] = 0
     if state["tamper"] == 1:
         sys.modules.pop("colorsys", None)            # a student program may delete ...
     elif state["tamper"] == 2:
@@ -106,7 +115,7 @@ def use_real_stream(on):
 
 def fresh(code="pass"):
     r = Report()
-    r.contextualize(Submission({"answer.py": code}, "answer.py"))
+    r.contextualize(Submission({"answer.py": code, "helper.py": "y = 1"}, "answer.py"))
     sb = Sandbox(report=r)
     sb.data["f"] = lambda: None
     sb.result_proxy_class = None
